@@ -300,7 +300,131 @@ def r7_stream_error_becomes_rst(ctx):
         r.check(ok2, 'reset-quota', f.file, 'a refused library reset (too many) escalates to handle_go_away (0.4.15)')
 
 
+_ORD = {'Lt': {'lt'}, 'Le': {'lt', 'eq'}, 'Gt': {'gt'}, 'Ge': {'gt', 'eq'}, 'Eq': {'eq'}, 'Ne': {'lt', 'gt'}}
+_ALL = {'lt', 'eq', 'gt'}
+_FLIP = {'lt': 'gt', 'gt': 'lt', 'eq': 'eq'}
+
+
+def id_boundary_edges(F, f, owner):
+    """switch edges that compare the stream-id argument with next_stream_id: [(bi, succ, orderings of id vs next)]"""
+    def is_next(e):
+        return mentions_field(e, owner, 'next_stream_id') or any(x[0] == 'call' and x[1].endswith('::next_stream_id') for x in walk(e))
+
+    def is_id(e):
+        e = strip(e)
+        return e[0] == 'arg' and e[1] == 2
+    out = []
+    for bi, sw in core.all_switches(F, f).items():
+        c = core.cmp_of(sw)
+        if c is None:
+            continue
+        op, a, b = c
+        if is_id(a) and is_next(b):
+            flip = False
+        elif is_id(b) and is_next(a):
+            flip = True
+        else:
+            continue
+        for s2, lab in sw.labels.items():
+            if lab is None:
+                continue
+            o = set(_ORD[op]) if lab else _ALL - _ORD[op]
+            if flip:
+                o = {_FLIP[x] for x in o}
+            out.append((bi, s2, frozenset(o)))
+    return out
+
+
+def r8_idle_boundary(ctx):
+    r = ctx.rule('C09.R8', 'TABLE', 'one idle boundary: every comparison of a stream id with next_stream_id splits at id < next (may exist) / id >= next (idle), and the actions sit on the right side')
+    F = ctx.facts
+    n = 0
+    for owner, side in ((P + 'recv::Recv', 'recv'), (P + 'send::Send', 'send')):
+        fns = ['ensure_not_idle', 'may_have_created_stream', 'maybe_reset_next_stream_id'] + (['open'] if side == 'recv' else [])
+        for fname in fns:
+            f = r.fn(owner + '::' + fname)
+            if not f:
+                continue
+            edges = id_boundary_edges(F, f, owner)
+            if fname == 'may_have_created_stream' and not edges:
+                # returns the comparison itself
+                e = None
+                for bi, si, pl, rv, ln in f.stmts():
+                    if pl == [0]:
+                        e = f.expr_of_rvalue(rv)
+                for bi, t in f.calls():
+                    if t['d'] == [0]:
+                        e = ('call', t['fn'], tuple(f.expr_of_op(a) for a in t['a']), bi)
+                ok = False
+                if e is not None:
+                    for x in walk(e):
+                        if x[0] == 'call' and x[1].rsplit('::', 1)[-1] == 'lt' and len(x[2]) == 2 and strip(x[2][0]) == ('arg', 2) and mentions_field(x[2][1], owner, 'next_stream_id'):
+                            ok = True
+                        if x[0] == 'bin' and x[1] == 'Lt' and strip(x[2]) == ('arg', 2) and mentions_field(x[3], owner, 'next_stream_id'):
+                            ok = True
+                n += 1
+                r.check(ok, 'boundary|%s|%s' % (side, fname), f.file, '%s::may_have_created_stream returns id < next_stream_id' % side)
+                continue
+            r.check(bool(edges), 'boundary|%s|%s|compares' % (side, fname), f.file, '%s compares the id with next_stream_id' % fname)
+            for bi, s2, o in edges:
+                n += 1
+                good = o in (frozenset(['lt']), frozenset(['eq', 'gt']))
+                r.check(good, 'boundary|%s|%s|%s' % (side, fname, '+'.join(sorted(o))), f.loc(bi),
+                        '%s::%s branches on id {%s} next_stream_id%s' % (side, fname, ','.join(sorted(o)), '' if good else ' — the boundary is id < next / id >= next everywhere else; an off-by-one here lets an identifier be re-used or a legal late frame be treated as idle'))
+            ge = [(bi, s2) for bi, s2, o in edges if o == frozenset(['eq', 'gt'])]
+            lt = [(bi, s2) for bi, s2, o in edges if o == frozenset(['lt'])]
+            if fname in ('maybe_reset_next_stream_id', 'open'):
+                ws = [(bi, ln) for bi, si, pl, rv, ln in f.stmts() if core.write_target(f, pl) == (owner, 'next_stream_id')]
+                r.check(bool(ws) and bool(ge) and all(f.dominated_by_edges(bi, ge) for bi, ln in ws), 'advance|%s|%s' % (side, fname), f.file,
+                        'next_stream_id is advanced exactly when id >= next_stream_id')
+                for bi, ln in ws:
+                    st = [x for x in f.blocks[bi]['s'] if core.write_target(f, x[0]) == (owner, 'next_stream_id')]
+                    e = f.expr_of_rvalue(st[0][1]) if st else ('unknown',)
+                    r.check(core.contains_call(e, 'frame::stream_id::StreamId::next_id') and any(x == ('arg', 2) for x in walk(e)), 'advance|%s|%s|value' % (side, fname), '%s:%d' % (f.file, ln), 'next_stream_id = %s' % core.show(e))
+            if fname == 'ensure_not_idle':
+                errs = [bi for bi, si, pl, rv, ln in f.stmts() if pl == [0] and rv[0] == 'aggr' and rv[2].endswith('Result::Err')]
+                r.check(bool(errs) and bool(ge) and all(f.dominated_by_edges(b, ge) for b in errs), 'idle|%s|err-side' % side, f.file, 'ensure_not_idle fails exactly for id >= next_stream_id')
+            if fname == 'open':
+                gos = [bi for bi, t in f.calls(lambda t: t['fn'].startswith('proto::error::Error::library_go_away'))]
+                r.check(bool(lt) and any(f.dominated_by_edges(b, lt) for b in gos), 'open|reuse-is-conn-error', f.file, 'an id below next_stream_id on HEADERS is a connection error (identifier re-use)')
+    r.floor(n, 12, 'boundary comparison edges')
+
+
+def r9_conn_error_goaway(ctx, rid='C09.R9'):
+    r = ctx.rule(rid, 'PASS', 'a connection error always yields a GOAWAY carrying its code: the only short-cut is a GOAWAY with the same reason already in flight')
+    F = ctx.facts
+    CONN = 'proto::connection::'
+    hg = r.fn(CONN + 'DynConnection::handle_go_away')
+    if not hg:
+        return
+    ga = core.guard_edges(F, hg, ['proto::go_away::GoAway::going_away', 'proto::go_away::GoAway::is_going_away'], lambda l: l is True or l == frozenset(['Some']))
+    now = [bi for bi, t in hg.calls(lambda t: t['fn'] in (CONN + 'DynConnection::go_away_now_data', CONN + 'DynConnection::go_away_now', 'proto::go_away::GoAway::go_away_now'))]
+    he = [bi for bi, t in hg.calls_to(P + 'streams::DynStreams::handle_error')]
+    r.check(bool(now), 'goaway|sent', hg.file, 'handle_go_away queues a GOAWAY (go_away_now_data)')
+    reach = hg.reachable([0], cut_blocks=now, cut_edges=ga)
+    r.check(bool(now) and not any(x in reach for x in hg.returns()), 'goaway|all-paths', hg.file, 'every path through handle_go_away that does not take the already-going-away edge queues the GOAWAY')
+    reach = hg.reachable([0], cut_blocks=he, cut_edges=ga)
+    r.check(bool(he) and not any(x in reach for x in hg.returns()), 'streams|all-paths', hg.file, 'and fails every in-flight stream with the error')
+    # the short-cut compares the reason of the GOAWAY in flight with the reason of this error
+    fns = [hg] + [F.fns[c] for c in F.reach_from([hg.name]) if c.startswith(hg.name + '::{closure') and c in F.fns]
+    compares = False
+    for g in fns:
+        for bi, t in g.calls(lambda t: t['fn'].rsplit('::', 1)[-1] in ('eq', 'ne') and 'Reason' in t['fn']):
+            es = [g.expr_of_op(a) for a in t['a']]
+            if any(core.contains_call(e, 'proto::go_away::GoingAway::reason') or mentions_field(e, 'proto::go_away::GoingAway', 'reason') for e in es):
+                compares = True
+    r.check((not ga) or compares, 'shortcut|same-reason', hg.file,
+            'the already-going-away short-cut %s' % ('is taken only when the GOAWAY in flight carries the same reason' if compares or not ga else
+                                                      'ignores the reason: after any GOAWAY (e.g. the NO_ERROR ones of a graceful shutdown) a later connection error closes the connection without a GOAWAY carrying its code and without failing the streams'))
+    # the GOAWAY carries the reason argument
+    for bi in now:
+        t = hg.term(bi)
+        r.check(any(strip(hg.expr_of_op(a)) == ('arg', 2) for a in t['a']), 'goaway|reason', hg.loc(bi), 'the GOAWAY is built from the reason of the error')
+
+
 def run(ctx):
+    r8_idle_boundary(ctx)
+    r9_conn_error_goaway(ctx)
     r1_tstate(ctx)
     r2_error_class(ctx)
     r3_polarity(ctx)
